@@ -1,0 +1,32 @@
+//go:build verif
+
+package kprapi
+
+import (
+	"github.com/go-chi/chi/v5"
+	"github.com/jackc/pgx/v4/pgxpool"
+
+	"github.com/shutter-network/rolling-shutter/rolling-shutter/keyper/epochkghandler"
+	"github.com/shutter-network/rolling-shutter/rolling-shutter/medley/broker"
+)
+
+// VerifNewServer builds a Server the way NewHTTPService does, except that the decryption
+// trigger and shutdown channels are buffered with chanBuf slots, so that the Shutdown and
+// SubmitDecryptionTrigger handlers do not block when nobody is receiving. It returns the
+// server, the router produced by the unexported setupRouter (the handler that Start
+// serves), and the two channels so that a test can observe what was sent on them.
+func VerifNewServer(dbpool *pgxpool.Pool, config Config, p2p P2PMessageSender, chanBuf int) (
+	*Server,
+	*chi.Mux,
+	chan *broker.Event[*epochkghandler.DecryptionTrigger],
+	chan struct{},
+) {
+	srv := &Server{
+		dbpool:      dbpool,
+		config:      config,
+		p2p:         p2p,
+		trigger:     make(chan *broker.Event[*epochkghandler.DecryptionTrigger], chanBuf),
+		shutdownSig: make(chan struct{}, chanBuf),
+	}
+	return srv, srv.setupRouter(), srv.trigger, srv.shutdownSig
+}
